@@ -41,6 +41,21 @@ CHECKS = {
         technique='symbolic execution of MIR + SMT (z3 Int encoding), counterexample replay on the native build',
         design='§4 C02 (M02a)',
     ),
+    'C03': dict(
+        engine='J+M', category='translation_validation',
+        text='Translation validation of binding expressions: for every expression form as root x every form as child in every operand position '
+             '(depth 2, minimal and full parentheses, boundary literals) the real compiler is run and the emitted JavaScript is executed symbolically; '
+             'z3 decides value_generated(D) == value_reference(D) for ALL data D, where operators are uninterpreted and null-safety, truthiness, ?: && || ?? '
+             'and call conventions are interpreted (the conventions of the property).  A sat verdict is confirmed by running the real code against the '
+             'reference semantics in node over an edge-value pool.  Engine M adds: the LitInt value of parse_number equals the mathematical value of the '
+             'digit string in its radix (hex, decimal, legacy octal).',
+        note='Trusted: the emitted-subset parser/interpreter of jssym/, the value datatype and its truthiness/nullish definitions, the precedence '
+             'table of the model printer; helper functions X Y Z P Q are interpreted from the real get_runtime_string().  Programs are bounded '
+             '(depth 2; quick tier: seeded sample of 700 depth-2 expressions + all depth-1 forms and literals).  Operators\' numeric results, '
+             'spreads of non-array iterables and the TypeScript runtime are outside.',
+        technique='SMT translation validation of emitted JavaScript (symbolic data) + MIR symbolic execution for literals; node replay',
+        design='§4 C03',
+    ),
     'C08': dict(
         engine='M', category='other',
         text='Routine-level bounded check of token conservation and meaningful whitespace: the MIR of convert_class_names_and_rpx_in_block, '
